@@ -34,3 +34,12 @@ func H_C01_copyfrom_r2_ELEMTYPE() { c01applySlice_ELEMTYPE(2, true) }
 // H_C01_copyfrom_r3_ELEMTYPE: CopyFrom, rank 3.
 //vsym:prop=C01 tier=thorough ints=int maxruns=40000
 func H_C01_copyfrom_r3_ELEMTYPE() { c01applySlice_ELEMTYPE(3, true) }
+
+// H_C01_selfcopy_r1_ELEMTYPE: CopyFrom between two stepped views of the same rank-1 array
+// (extents, origins, steps <= B), overlapping or not.
+//vsym:prop=C01 tier=quick ints=int maxruns=20000
+func H_C01_selfcopy_r1_ELEMTYPE() { c01selfCopy_ELEMTYPE(1) }
+
+// H_C01_selfcopy_r2_ELEMTYPE: same, rank 2 (root B x B in the quick tier).
+//vsym:prop=C01 tier=quick ints=int maxruns=20000
+func H_C01_selfcopy_r2_ELEMTYPE() { c01selfCopy_ELEMTYPE(2) }
